@@ -69,6 +69,28 @@ func corner() []Input {
 	}
 }
 
+// ifaceOrders: a tagged struct with a same-package interface field and two untagged same-package dependencies, in every
+// field order (an interface among the local dependencies must not end the generation of the ones after it: seeded C17-k,
+// which the random stream caught at first and lost when the stream shifted), with the tag also on the interface.
+func ifaceOrders() []Input {
+	fields := []Field{fn("Owner", "Object"), fn("Meta", "Meta"), fn("Spec", "Spec")}
+	perms := [][]int{{0, 1, 2}, {0, 2, 1}, {1, 0, 2}, {1, 2, 0}, {2, 0, 1}, {2, 1, 0}}
+	var out []Input
+	for i, pm := range perms {
+		fs := []Field{fb("N", "int")}
+		for _, k := range pm {
+			fs = append(fs, fields[k])
+		}
+		out = append(out, Input{Decls: []Decl{
+			{Name: "Object", Kind: DIface, Tag: i%2 == 1},
+			st("Meta", false, fsl("Labels", "string"), fm("Ann", "string", "string")),
+			st("Spec", false, fsl("Ports", "int")),
+			st("Root", true, fs...),
+		}, Seed: uint64(200 + i)})
+	}
+	return out
+}
+
 var basics = []string{"int", "string", "bool", "float64", "int64", "uint8", "int32", "uint", "uint16", "float32"}
 var mapKeys = []string{"string", "int", "int64", "uint8"}
 var shadowNames = []string{"o", "i", "in", "out", "key", "val", "q", "item"}
@@ -620,6 +642,9 @@ func genericArgsInputs(r *core.RNG, tier string) []Input {
 func (prop) Generate(r *core.RNG, tier string) []json.RawMessage {
 	var out []json.RawMessage
 	for _, c := range corner() {
+		out = append(out, enc(c))
+	}
+	for _, c := range ifaceOrders() {
 		out = append(out, enc(c))
 	}
 	// field names of every legal identifier shape; OutputFileBaseName x three runs (names.go)
